@@ -22,6 +22,7 @@ RULE += (" " + 'Module parameters overridden with a value of another type (named
 RULE += (" " + 'Let statements whose value does not fit a constraint given by a name bound earlier (exemplar, named constraint, tuple exemplar).')
 RULE += (" " + "Calls of a function that uses its parameter as an int with an argument of another type that is a name, selected field, expression of names, call result or literal (judged when the checker finds it statically; found at run time the fault is in the callee's body: no verdict).")
 RULE += (" " + 'Round 8: host function-body-via-call-chain: the faulty function is reached through 1, 2, 4, 7, 8, 9, 10, 13, 21 or 40 helper functions, each defined in a statement of its own; the primary position stays in the faulty statement and the top-level calling statement is listed under VIA however long the chain is.')
+RULE += (" " + 'Every 5th single-fault program is also built as a LIBRARY that another file imports with a top-level let: the primary position must name the library file and lie inside the faulty statement there, not at the import.')
 
 POS_RE = re.compile(r"line: ([0-9]+) column: ([0-9]+)")
 VIA_RE = re.compile(r"VIA: (?:file: \S+ )?line: ([0-9]+) column: ([0-9]+)")
@@ -278,6 +279,50 @@ def observe(probe, text, mode, drv):
     return r
 
 
+PRIMARY_RE = re.compile(r"(?:file: (\S+) )?line: ([0-9]+) column: ([0-9]+)")
+MAIN_OF_IMPORT = "let pre17 = 1;\n\n\nlet lib17 = import \"%s\";\nlet post17 = 2;\n"
+
+
+def judge_imported(probe, text, spans, fidx, kind, res, drv):
+    """the same single-fault program as a LIBRARY that another file imports: the statement that causes the fault is in the
+    library, so the primary position names the library file and lies inside the faulty statement there -- not at the import"""
+    drv["n"] += 1
+    lib = os.path.join(drv["dir"], "lib17_%d.ucg" % drv["n"])
+    main = os.path.join(drv["dir"], "main17_%d.ucg" % drv["n"])
+    with open(lib, "w", encoding="utf-8", newline="") as f:
+        f.write(text)
+    with open(main, "w", encoding="utf-8") as f:
+        f.write(MAIN_OF_IMPORT % os.path.basename(lib))
+    rr = probe.safe_call({"op": "build", "path": main, "strict": True, "reuse_max": 100}, timeout=20.0)
+    for q in (lib, main):
+        try:
+            os.remove(q)
+        except OSError:
+            pass
+    cls_ = "syntax" if kind.startswith("syntax") else "semantic"
+    res.count("imported-library-fault:" + cls_)
+    if "panic" in rr or "crash" in rr or "hang" in rr or "inconclusive" in rr:
+        res.count("crash-left-to-C04")
+        return
+    w = {"text": text, "fault_stmt": fidx, "imported": True, "kind": kind}
+    if rr.get("ok"):
+        res.violation(["imported-library-fault", cls_, "not-reported"], w, {})
+        return
+    err = "\n".join(l for l in rr.get("err", "").split("\n") if not l.startswith("TRACE:"))
+    m = PRIMARY_RE.search(err)
+    if not m:
+        res.violation(["imported-library-fault", cls_, "no-position"], w, {"err": err[:300]})
+        return
+    f, line, col = m.group(1), int(m.group(2)), int(m.group(3))
+    if f is not None and os.path.basename(f).startswith("main17_"):
+        res.violation(["imported-library-fault", cls_, "reported-at-the-import-in-the-importing-file"], w, {"err": err[:300]})
+        return
+    if not inside(spans[("stmt", fidx)][0], line, col):
+        res.violation(["imported-library-fault", cls_, "outside-faulty-statement"], w, {"err": err[:300], "reported": [line, col], "span": spans[("stmt", fidx)][0]})
+        return
+    res.count("imported-library-fault-inside-faulty-statement:" + cls_)
+
+
 def judge_msg(err, spans, fidx, cidx, kind, host, mode, res, text, detail_extra=None):
     """checks primary position and VIA; returns (line, col) or None"""
     # TRACE output carries positions of its own and is not part of the diagnostic
@@ -388,6 +433,8 @@ def task(args):
                                           {"before": list(p0), "after": [int(m3.group(1)), int(m3.group(2))]})
                         else:
                             res.count("stable-with-after-ok")
+            if c % 5 == 0 and not (kind.startswith("call-argument-type") or kind == "missing-import"):
+                judge_imported(probe, text, spans, fidx, kind, res, drv)
             if c % 25 == 0:
                 with core.TempProject("c17") as tp:
                     tp.write("f.ucg", text)
@@ -451,6 +498,10 @@ def check_witness(w):
     drv = {"dir": os.path.join(core.SCRATCH, "c17-r-%d" % os.getpid()), "n": 0}
     os.makedirs(drv["dir"], exist_ok=True)
     try:
+        if w.get("imported"):
+            if ("stmt", fidx) in spans:
+                judge_imported(probe, text, spans, fidx, w.get("kind", "syntax"), res, drv)
+            return res
         for mode in ("eval", "build"):
             rr = observe(probe, text, mode, drv)
             if rr.get("ok"):
